@@ -396,6 +396,24 @@ func changeEndorsements(ctx context.Context, cops ChangeOps, endorsement *epb.VM
 	return certPath, nil
 }
 
+var errDryRunNoFile = errors.New("dry run: no workspace to read from")
+
+// dryRunOps is the ChangeOps of a dry run. Every file is absent, writes and mode changes only say
+// what they would have done, and there is nothing to commit or destroy.
+type dryRunOps struct{}
+
+func (dryRunOps) WriteOrCreateFiles(ctx context.Context, files ...*File) error {
+	for _, f := range files {
+		output.Infof(ctx, "dry run: would write %q (%d bytes)", f.Path, len(f.Contents))
+	}
+	return nil
+}
+func (dryRunOps) ReadFile(context.Context, string) ([]byte, error) { return nil, errDryRunNoFile }
+func (dryRunOps) SetBinaryWritable(context.Context, string) error  { return nil }
+func (dryRunOps) IsNotFound(err error) bool                        { return errors.Is(err, errDryRunNoFile) }
+func (dryRunOps) Destroy()                                         {}
+func (dryRunOps) TryCommit(context.Context) (any, error)           { return nil, nil }
+
 // Creates commit for extending the endorsement manifest and writing out the serialized endorsement
 // and attempts to submit. Submit may fail, thus "try".
 func tryChange(ctx context.Context, change func(context.Context, ChangeOps) (string, error)) error {
@@ -403,7 +421,8 @@ func tryChange(ctx context.Context, change func(context.Context, ChangeOps) (str
 	if err != nil {
 		return err
 	}
-	var cops ChangeOps
+	// A dry run has no workspace: its file operations see nothing and change nothing.
+	var cops ChangeOps = dryRunOps{}
 	if !ec.DryRun {
 		cops, err = ec.VCS.GetChangeOps(ctx)
 		if err != nil {
@@ -412,9 +431,7 @@ func tryChange(ctx context.Context, change func(context.Context, ChangeOps) (str
 	}
 	certPath, err := change(ctx, cops)
 	if err != nil {
-		if cops != nil {
-			cops.Destroy()
-		}
+		cops.Destroy()
 		return fmt.Errorf("failed to modify manifest textproto: %w", err)
 	}
 
